@@ -25,16 +25,14 @@ structure AcceptedFacts (doc : Doc) (s : Schema) : Prop where
   notBuiltin : ∀ t ∈ doc.types, isBuiltin t.name = false
 
 theorem Accepted.facts {doc : Doc} {s : Schema} (h : Accepted doc s) : AcceptedFacts doc s := by
-  obtain ⟨q, qd, hblocks, hq, hqi, hqb, hres⟩ := schemaNew_spec h.guard
-  obtain ⟨_, hlg, hclean⟩ := guard_unpack h.guard
-  rcases hres with ⟨s', hs', hvt, hqt, hd, hr⟩ | ⟨es, hes, _⟩
+  obtain ⟨_, hclean⟩ := guard_unpack h.guard
+  rcases schemaNew_spec h.guard with ⟨s', hs', hspec⟩ | ⟨es, hes, _⟩
   · have : s' = s := by
       have := hs'.symm.trans h.accepted
       cases this; rfl
     subst this
-    have hqd := findType_some hq
-    exact ⟨hvt, by rw [hqt, hqd.2]; exact hblocks, hqt ▸ hqd.1, hd, hclean,
-      validSchema_of_rules hblocks hq hqi hqb hd hr, hqt ▸ hr, hlg.typesNotBuiltin⟩
+    exact ⟨hspec.vertexTypes, hspec.blocks, (findType_some hspec.rootFound).1, hspec.loopOK.distinct, hclean,
+      hspec.valid, hspec.rules, hspec.loopOK.typesNotBuiltin⟩
   · rw [h.accepted] at hes; cases hes
 
 /-! ### `Outcome.collect` over mapped lists -/
